@@ -183,9 +183,10 @@ def run(ctx: Ctx) -> None:
 
     def sp_code(w):
         raw = bytes([0, 0, 0, 0, 0, 0, 0, 0, 0, 0, 0, 0, 0, 0, 0, 0]) + w.to_bytes(2, "little") + b"\0\0"
-        _, _, _, val = S._struct_unpack(raw)
-        sp = val / 100  # what fragz_to_full_sched does with it
-        r = call(S._struct_pack, {"zone_idx": "00"}, {"day_of_week": 0}, {"time_of_day": "00:00", "heat_setpoint": sp})
+        swp = real_sched_decode(S, raw, whole=True)      # through the REAL fragz_to_full_sched (one record, compressed and cut as the wire has it)
+        if swp is None:
+            return -1
+        r = call(S._struct_pack, {"zone_idx": "00"}, {"day_of_week": 0}, swp)     # 0 / 1 decode to enabled False / True, everything else to a setpoint
         if r[0] != "ok":
             return -1
         return int.from_bytes(r[1][16:18], "little")
@@ -503,10 +504,23 @@ def oracle(ctx: Ctx, H, A, S, thorough: bool) -> None:
         sp = k / 100
         ctx.case(("sched-setpoint", k), True, "schedule-setpoint")
         raw = S._struct_pack({"zone_idx": "00"}, {"day_of_week": 0}, {"time_of_day": "00:00", "heat_setpoint": sp})
-        _, _, _, val = S._struct_unpack(raw)
-        if val / 100 != sp:
-            ctx.violation("schedule-setpoint-roundtrip", "a schedule setpoint on the 0.01 grid is packed to a different value",
-                          {"setpoint": sp, "unpacked": val / 100})
+        back = real_sched_decode(S, raw)
+        if back != sp:
+            ctx.violation("schedule-setpoint-roundtrip", "a schedule setpoint on the 0.01 grid, packed and decoded by the schedule codec, comes back as a different value",
+                          {"setpoint": sp, "decoded": back})
+
+
+def real_sched_decode(S, raw: bytes, whole: bool = False):
+    """The setpoint (whole=True: the switchpoint) the library's own schedule decoder reports for ONE packed record."""
+    import zlib  # noqa: PLC0415
+
+    blob = zlib.compress(raw).hex().upper()
+    try:
+        full = S.fragz_to_full_sched([blob[i:i + 82] for i in range(0, len(blob), 82)])
+        swp = full["schedule"][0]["switchpoints"][0]
+        return swp if whole else swp["heat_setpoint"]
+    except Exception:  # noqa: BLE001
+        return None
 
 
 def replay(case: dict) -> int:
